@@ -547,14 +547,22 @@ def int_truediv(a, b):
         return a
     if z3.is_int_value(a1) and a1.as_long() == 0:
         return z3.IntVal(0)
+    if z3.is_int_value(a1) and z3.is_int_value(b1) and b1.as_long() != 0 and a1.as_long() % b1.as_long() == 0:
+        # constants on this path with an integral quotient (integral floats are modelled as integers)
+        return z3.IntVal(a1.as_long() // b1.as_long())
     return uf("truediv", INT, INT, INT)(a, b)
 
 
 def int_pow(a, b):
     """`**` on the integer model: uninterpreted, except x**1 -> x (flatten)."""
-    b1 = z3.simplify(b)
+    a1, b1 = z3.simplify(a), z3.simplify(b)
     if z3.is_int_value(b1) and b1.as_long() == 1:
         return a
+    if z3.is_int_value(b1) and b1.as_long() == 0:
+        return z3.IntVal(1)         # Python: x**0 == 1 for every number, 0**0 included
+    if z3.is_int_value(a1) and z3.is_int_value(b1) and 0 <= b1.as_long() <= 16 and abs(a1.as_long()) <= 64:
+        # both operands are constants on this path: what a concrete executor computes
+        return z3.IntVal(a1.as_long() ** b1.as_long())
     return uf("pow", INT, INT, INT)(a, b)
 
 
